@@ -2,6 +2,7 @@ package main
 
 import (
 	"fmt"
+	"strings"
 	"go/token"
 	"go/types"
 	"math/big"
@@ -69,6 +70,22 @@ func implicitNonNil(p *ssa.Parameter) bool {
 	switch p.Type().Underlying().(type) {
 	case *types.Pointer:
 	default:
+		return false
+	}
+	deref := false
+	for _, r := range *p.Referrers() {
+		switch u := r.(type) {
+		case *ssa.FieldAddr:
+			deref = deref || u.X == ssa.Value(p)
+		case *ssa.UnOp:
+			deref = deref || (u.Op == token.MUL && u.X == ssa.Value(p))
+		case *ssa.Store:
+			deref = deref || u.Addr == ssa.Value(p)
+		case *ssa.IndexAddr:
+			deref = deref || u.X == ssa.Value(p)
+		}
+	}
+	if !deref {
 		return false
 	}
 	for _, r := range *p.Referrers() {
@@ -143,6 +160,7 @@ func (fr *Frame) execInstr(in ssa.Instruction) {
 		}
 	case *ssa.Store:
 		fr.nilCheck(x.Addr, x.Pos(), "store to")
+		fr.fieldStoreHook(x)
 		ex.store(fr.st, fr.val(x.Addr).T, ex.ls.of(x.Val.Type()), ex.P.addrHint(x.Addr), fr.val(x.Val))
 	case *ssa.UnOp:
 		fr.unop(x)
@@ -224,6 +242,9 @@ func (fr *Frame) execInstr(in ssa.Instruction) {
 			rv.C = append(rv.C, fr.val(r))
 		}
 		_ = rl
+		if fr.depth == 0 && fr.spec != nil {
+			fr.returnSite(x, rv)
+		}
 		fr.rets = append(fr.rets, retRec{fr.reach[fr.cur], rv, fr.st.clone()})
 	case *ssa.Jump, *ssa.If:
 	default:
@@ -247,6 +268,12 @@ func (fr *Frame) unop(x *ssa.UnOp) {
 		fr.nilCheck(x.X, x.Pos(), "load from")
 		l := ex.ls.of(x.Type())
 		v := ex.load(fr.st, fr.val(x.X).T, l, ex.P.addrHint(x.X), true)
+		fr.fieldLoadHook(x, v)
+		if g, isG := x.X.(*ssa.Global); isG && ex.P.nonNilGlobals[g] {
+			if c := nilTermOf(l, v); c != "" {
+				ex.q.assume(not(c))
+			}
+		}
 		if _, isG := x.X.(*ssa.Global); isG && isLoggerIface(x.Type()) {
 			ex.q.assume(not(eq(v.C[0].T, "0")))
 			ex.trusted["package-level nazalog.Logger variables (Log) are non-nil"] = true
@@ -608,4 +635,154 @@ func (fr *Frame) lookup(x *ssa.Lookup) {
 	i := fr.toIdx(fr.val(x.Index), x.Index.Type())
 	fr.oblige("index", fr.locText(x.Pos(), "index "+x.X.Name()), and(ex.ar.cmp("<=", idxT, ex.idx(0), i), ex.ar.cmp("<", idxT, i, s.C[2].T)), x.Pos())
 	fr.set(x, sv(ex.loadLeaf(fr.st, ex.s8Key(), ex.elemAddr(s, i), true)))
+}
+
+// ---------- declared field facts and type invariants (DESIGN §2.2 "type T invariant") ----------
+
+func typeKeyOf(n *types.Named) string {
+	if n.Obj().Pkg() == nil {
+		return n.Obj().Name()
+	}
+	return n.Obj().Pkg().Path() + "." + n.Obj().Name()
+}
+
+func nilTermOf(l *Layout, v *Val) string {
+	switch l.Kind {
+	case LScalar:
+		if l.Sort == SAddr {
+			return eq(v.T, "nil")
+		}
+	case LSlice, LString:
+		return eq(v.C[0].T, "nil")
+	case LIface:
+		return eq(v.C[0].T, "0")
+	}
+	return ""
+}
+
+// fieldLoadHook: facts assumed when a field is read.
+func (fr *Frame) fieldLoadHook(x *ssa.UnOp, v *Val) {
+	fa, ok := x.X.(*ssa.FieldAddr)
+	if !ok {
+		return
+	}
+	n := structNamed(fa.X.Type())
+	if n == nil {
+		return
+	}
+	ex := fr.ex
+	tk := typeKeyOf(n)
+	st := n.Underlying().(*types.Struct)
+	if ex.P.specs.NonNil[tk+"."+st.Field(fa.Field).Name()] {
+		if c := nilTermOf(ex.ls.of(x.Type()), v); c != "" {
+			ex.q.assume(not(c))
+			ex.trusted["declared non-nil field "+shortKey(tk)+"."+st.Field(fa.Field).Name()+" (checked at every analysed store and allocation)"] = true
+		}
+	}
+	invs := ex.P.specs.Types[tk]
+	if len(invs) == 0 || fr.st.dirty[typeShort(n)] {
+		return
+	}
+	base := fr.val(fa.X).T
+	key := "inv:" + tk + ":" + base + ":" + fr.st.epoch(typeShort(n))
+	if ex.factDone[key] {
+		return
+	}
+	ex.factDone[key] = true
+	for _, ti := range invs {
+		cx := fr.baseCtx(fr.st)
+		if sp := ex.P.pkgByPath[ti.Pkg]; sp != nil {
+			cx.pkg = sp.Pkg
+		}
+		cx.spec = nil
+		cx.vals["self"] = sv(base)
+		cx.types["self"] = types.NewPointer(n)
+		ex.q.assume(implies(fr.reach[fr.cur], cx.evalBool(ti.Clause.Expr)))
+	}
+	ex.trusted["type invariant of "+shortKey(tk)+" assumed for objects read outside its own methods (proved at the exit of its methods and constructors; re-entrancy while broken not modelled)"] = true
+}
+
+// epoch: identifies the heap versions of a type's field families, so that an
+// invariant is re-assumed after a havoc.
+func (s *State) epoch(tshort string) string {
+	e := ""
+	for f, ev := range s.events {
+		if strings.HasPrefix(f, "H:"+tshort+".") {
+			e += ev + ","
+		}
+	}
+	return e
+}
+
+// fieldStoreHook: obligations and bookkeeping when a field is written.
+func (fr *Frame) fieldStoreHook(x *ssa.Store) {
+	fa, ok := x.Addr.(*ssa.FieldAddr)
+	if !ok {
+		return
+	}
+	n := structNamed(fa.X.Type())
+	if n == nil {
+		return
+	}
+	ex := fr.ex
+	tk := typeKeyOf(n)
+	st := n.Underlying().(*types.Struct)
+	if ex.P.specs.NonNil[tk+"."+st.Field(fa.Field).Name()] {
+		if c := nilTermOf(ex.ls.of(x.Val.Type()), fr.val(x.Val)); c != "" {
+			fr.oblige("objinv", "nonnil "+n.Obj().Name()+"."+st.Field(fa.Field).Name()+": "+fr.locText(x.Pos(), "store"), not(c), x.Pos())
+		}
+	}
+	if len(ex.P.specs.Types[tk]) > 0 {
+		if fr.st.dirty == nil {
+			fr.st.dirty = map[string]bool{}
+		}
+		fr.st.dirty[typeShort(n)] = true
+		// writes to invariant-carrying types are expected in their own methods / constructors only
+		okSite := false
+		switch b := fa.X.(type) {
+		case *ssa.Alloc:
+			okSite = true
+		case *ssa.Parameter:
+			okSite = len(fr.fn.Params) > 0 && fr.fn.Params[0] == b && fr.fn.Signature.Recv() != nil
+		}
+		if !okSite {
+			ex.trusted["field of invariant-carrying type "+shortKey(tk)+" written outside its methods in "+shortKey(ex.P.keyOf[fr.fn])] = true
+		}
+	}
+}
+
+// returnSite: "returns" clauses, evaluated at one return statement. A clause
+// that mentions a local not visible at this site is skipped here.
+func (fr *Frame) returnSite(x *ssa.Return, rv *Val) {
+	ex := fr.ex
+	for _, c := range fr.spec.RetSites {
+		if c.Thor && !ex.thorough {
+			continue
+		}
+		func() {
+			defer func() {
+				if r := recover(); r != nil {
+					if e, ok := r.(error); ok && strings.Contains(e.Error(), "unknown identifier") {
+						return
+					}
+					panic(r)
+				}
+			}()
+			fr.lookBlock, fr.lookAtEnd = x.Block(), true
+			cx := fr.baseCtx(fr.st)
+			cx.lookup = func(name string) (*Val, types.Type, bool) { return fr.frameLookup(name, cx.state(), nil) }
+			cx.old = fr.entrySt
+			cx.entrySt = fr.entrySt
+			cx.goal = true
+			if fr.fn.Signature.Results().Len() > 0 {
+				cx.setResult(fr.fn, rv)
+			}
+			cond := cx.evalBool(c.Expr)
+			o := fr.oblige("returns", clauseName(c), cond, x.Pos())
+			if o != nil {
+				o.Label, o.Mode = c.Label, c.Mode
+			}
+			ex.retSiteHits[clauseName(c)]++
+		}()
+	}
 }
